@@ -32,8 +32,10 @@ type pRule struct {
 func pRuleText(r pRule) string {
 	var sb strings.Builder
 	fmt.Fprintf(&sb, "rule \"%s\" \"%s\" salience %d begin\n", r.Name, r.Desc, r.Sal)
-	fmt.Fprintf(&sb, "  P.Enter(Req.Id, \"%s\")\n  P.Hold(Req.Id, \"%s\")\n  P.Do(Req.Id, \"%s\")\n", r.Name, r.Name, r.Name)
-	fmt.Fprintf(&sb, "  loc = Req.Id\n  P.Mid(Req.Id, \"%s\")\n  Req.Out = loc\n", r.Name)
+	// the gate sits INSIDE the evaluation of an argument list (HoldV is the second argument of Do): a request held there has
+	// evaluated `Req.Id` already, so anything shared between requests at this call site would hand Do another request's id
+	fmt.Fprintf(&sb, "  P.Enter(Req.Id, \"%s\")\n  loc = P.Do(Req.Id, P.HoldV(Req.Id, \"%s\"))\n", r.Name, r.Name)
+	fmt.Fprintf(&sb, "  P.Mid(Req.Id, \"%s\")\n  Req.Out = loc\n", r.Name)
 	fmt.Fprintf(&sb, "  P.Exit(Req.Id, \"%s\")\n", r.Name)
 	switch r.Kind {
 	case "fail":
@@ -127,7 +129,7 @@ func (p *probe) Hold(req int64, rule string) {
 	case <-time.After(8 * time.Second):
 	}
 }
-func (p *probe) Do(req int64, rule string) {
+func (p *probe) Do(req int64, rule string) int64 {
 	k := fmt.Sprintf("%d/%s", req, rule)
 	p.mu.Lock()
 	f := p.actions[k]
@@ -136,6 +138,13 @@ func (p *probe) Do(req int64, rule string) {
 	if f != nil {
 		f()
 	}
+	return req
+}
+
+// HoldV is Hold as a value: usable as an argument, so that the gate is reached in the middle of an argument list.
+func (p *probe) HoldV(req int64, rule string) string {
+	p.Hold(req, rule)
+	return rule
 }
 
 type pStep struct {
